@@ -212,50 +212,69 @@ def spendUtxo (s : Sys) (txid : Hash) (idx : Nat) : Except Err (CacheVal × Sys)
       .ok (cv, { s with m := { s.m with deletes := s.m.deletes ++ [.h hk, .u uk] } })
     | .ok none => .error .chainError
 
-/-! ### advance_block -/
+/-! ### advance_block
 
-/-- per-block accumulators of `advance_block` -/
-structure Acc where
-  s : Sys
+The transaction loops are written once, over an abstract UTXO-store interface `UOps σ`
+(`spend_utxo` / `put_utxo`), so that the same literal control flow runs on the concrete system
+(`sysOps`: cache + DB rows + queued deletes) and on a plain map (used by the proofs). -/
+
+structure UOps (σ : Type) where
+  spend : σ → Hash → Nat → Except Err (CacheVal × σ)
+  add : σ → Hash → Nat → CacheVal → σ
+
+/-- the concrete store: `spend_utxo` and `utxo_cache[key] = value` -/
+def sysOps : UOps Sys where
+  spend := spendUtxo
+  add := fun s txid idx cv =>
+    { s with m := { s.m with cache := ainsert (txid, idx) cv s.m.cache } }
+
+/-- per-block accumulators of `advance_block` / `backup_block` -/
+structure Acc (σ : Type) where
+  s : σ
   undo : List CacheVal := []
   hashXsByTx : List (List HashX) := []
   txHashes : List Hash := []
   txNum : Nat
   delta : Int := 0
+  touched : List HashX := []
 
-def spendInputs (txIns : List TxIn) (a : Acc) (hxs : List HashX) : Except Err (Acc × List HashX) :=
+def spendInputs {σ : Type} (ops : UOps σ) (txIns : List TxIn) (a : Acc σ) (hxs : List HashX) :
+    Except Err (Acc σ × List HashX) :=
   match txIns with
   | [] => .ok (a, hxs)
   | i :: rest =>
-    if i.isGen then spendInputs rest a hxs
+    if i.isGen then spendInputs ops rest a hxs
     else
-      match spendUtxo a.s i.prev i.idx with
+      match ops.spend a.s i.prev i.idx with
       | .error e => .error e
       | .ok (cv, s') =>
-        spendInputs rest { a with s := s', undo := a.undo ++ [cv], delta := a.delta - 1 } (hxs ++ [cv.hx])
+        spendInputs ops rest { a with s := s', undo := a.undo ++ [cv], delta := a.delta - 1 }
+          (hxs ++ [cv.hx])
 
-def addOutputs (cfg : Cfg) (height : Nat) (txid : Hash) (txNum : Nat) :
-    List TxOut → Nat → Acc → List HashX → Acc × List HashX
+def addOutputs {σ : Type} (ops : UOps σ) (cfg : Cfg) (height : Nat) (txid : Hash) (txNum : Nat) :
+    List TxOut → Nat → Acc σ → List HashX → Acc σ × List HashX
   | [], _, a, hxs => (a, hxs)
   | o :: rest, idx, a, hxs =>
-    if unspendable cfg.act height o.kind then addOutputs cfg height txid txNum rest (idx + 1) a hxs
+    if unspendable cfg.act height o.kind then addOutputs ops cfg height txid txNum rest (idx + 1) a hxs
     else
-      let s' := { a.s with m := { a.s.m with
-        cache := ainsert (txid, idx) ⟨o.hx, txNum, o.value⟩ a.s.m.cache } }
-      addOutputs cfg height txid txNum rest (idx + 1) { a with s := s', delta := a.delta + 1 }
+      addOutputs ops cfg height txid txNum rest (idx + 1)
+        { a with s := ops.add a.s txid idx ⟨o.hx, txNum, o.value⟩, delta := a.delta + 1 }
         (hxs ++ [o.hx])
 
-def advanceTxs (cfg : Cfg) (height : Nat) : List Tx → Acc → Except Err Acc
+/-- bookkeeping at the end of one tx of `advance_block` -/
+def finishTx {σ : Type} (r : Acc σ × List HashX) (txid : Hash) : Acc σ :=
+  { r.1 with touched := r.1.touched ++ r.2, hashXsByTx := r.1.hashXsByTx ++ [r.2],
+             txHashes := r.1.txHashes ++ [txid], txNum := r.1.txNum + 1 }
+
+def advanceTxs {σ : Type} (ops : UOps σ) (cfg : Cfg) (height : Nat) :
+    List Tx → Acc σ → Except Err (Acc σ)
   | [], a => .ok a
   | tx :: rest, a =>
-    match spendInputs tx.ins a [] with
+    match spendInputs ops tx.ins a [] with
     | .error e => .error e
     | .ok (a1, hxs1) =>
-      let (a2, hxs2) := addOutputs cfg height tx.id a1.txNum tx.outs 0 a1 hxs1
-      let s2 := { a2.s with m := { a2.s.m with touched := a2.s.m.touched ++ hxs2 } }
-      advanceTxs cfg height rest
-        { a2 with s := s2, hashXsByTx := a2.hashXsByTx ++ [hxs2],
-                  txHashes := a2.txHashes ++ [tx.id], txNum := a2.txNum + 1 }
+      advanceTxs ops cfg height rest
+        (finishTx (addOutputs ops cfg height tx.id a1.txNum tx.outs 0 a1 hxs1) tx.id)
 
 /-- `History.add_unflushed`: per tx, each hashX of `set(hashXs)` gets the tx number appended -/
 def addUnflushed (unflushed : List (HashX × List Nat)) (hashXsByTx : List (List HashX))
@@ -270,10 +289,10 @@ def advance (cfg : Cfg) (daemonH : Int) (s : Sys) (b : Block) : Except Err Sys :
   if b.prev ≠ s.m.st.tip then .error .reorg
   else
     let height := (s.m.st.height + 1).toNat
-    match advanceTxs cfg height b.txs { s := s, txNum := s.m.st.txCount } with
+    match advanceTxs sysOps cfg height b.txs { s := s, txNum := s.m.st.txCount } with
     | .error e => .error e
     | .ok a =>
-      let m := a.s.m
+      let m := { a.s.m with touched := a.s.m.touched ++ a.touched }
       let keepUndo : Bool := decide ((height : Int) ≥ daemonH - cfg.reorgLimit + 1)
       .ok { a.s with m := { m with
         txHashesU := m.txHashesU ++ [a.txHashes],
@@ -419,41 +438,43 @@ def histBackupEffect (s : Sys) (touched : List HashX) (txCount : Nat) : Effect :
   .histBatch (parts.flatMap (·.1)) (parts.flatMap (·.2))
     { hstateOf s.m with flushCount := s.m.histFlush + 1 }
 
-/-- restore the inputs of one tx, consuming the undo list from the back -/
-def restoreInputs : List TxIn → List CacheVal → Acc → Option (Acc × List CacheVal)
+/-- restore the inputs of one tx (given already reversed), consuming the undo list from the back -/
+def restoreInputs {σ : Type} (ops : UOps σ) :
+    List TxIn → List CacheVal → Acc σ → Option (Acc σ × List CacheVal)
   | [], undo, a => some (a, undo)
-  | i :: rest, undo, a =>   -- called with the inputs already reversed
-    if i.isGen then restoreInputs rest undo a
+  | i :: rest, undo, a =>
+    if i.isGen then restoreInputs ops rest undo a
     else
       match undo.getLast? with
       | none => none
       | some cv =>
-        let s' := { a.s with m := { a.s.m with
-          cache := ainsert (i.prev, i.idx) cv a.s.m.cache, touched := a.s.m.touched ++ [cv.hx] } }
-        restoreInputs rest undo.dropLast { a with s := s', delta := a.delta + 1 }
+        restoreInputs ops rest undo.dropLast
+          { a with s := ops.add a.s i.prev i.idx cv, touched := a.touched ++ [cv.hx],
+                   delta := a.delta + 1 }
 
-def spendOutputs (cfg : Cfg) (height : Nat) (txid : Hash) :
-    List TxOut → Nat → Acc → Except Err Acc
+def spendOutputs {σ : Type} (ops : UOps σ) (cfg : Cfg) (height : Nat) (txid : Hash) :
+    List TxOut → Nat → Acc σ → Except Err (Acc σ)
   | [], _, a => .ok a
   | o :: rest, idx, a =>
-    if unspendable cfg.act height o.kind then spendOutputs cfg height txid rest (idx + 1) a
+    if unspendable cfg.act height o.kind then spendOutputs ops cfg height txid rest (idx + 1) a
     else
-      match spendUtxo a.s txid idx with
+      match ops.spend a.s txid idx with
       | .error e => .error e
       | .ok (cv, s') =>
-        let s'' := { s' with m := { s'.m with touched := s'.m.touched ++ [cv.hx] } }
-        spendOutputs cfg height txid rest (idx + 1) { a with s := s'', delta := a.delta - 1 }
+        spendOutputs ops cfg height txid rest (idx + 1)
+          { a with s := s', touched := a.touched ++ [cv.hx], delta := a.delta - 1 }
 
-/-- the loop of `backup_block` over the txs in reverse order -/
-def backupTxs (cfg : Cfg) (height : Nat) : List Tx → List CacheVal → Acc → Except Err (Acc × List CacheVal)
+/-- the loop of `backup_block` over the txs (given already reversed) -/
+def backupTxs {σ : Type} (ops : UOps σ) (cfg : Cfg) (height : Nat) :
+    List Tx → List CacheVal → Acc σ → Except Err (Acc σ × List CacheVal)
   | [], undo, a => .ok (a, undo)
-  | tx :: rest, undo, a =>     -- called with the txs already reversed
-    match spendOutputs cfg height tx.id tx.outs 0 a with
+  | tx :: rest, undo, a =>
+    match spendOutputs ops cfg height tx.id tx.outs 0 a with
     | .error e => .error e
     | .ok a1 =>
-      match restoreInputs tx.ins.reverse undo a1 with
+      match restoreInputs ops tx.ins.reverse undo a1 with
       | none => .error .assertion
-      | some (a2, undo') => backupTxs cfg height rest undo' { a2 with txNum := a2.txNum + 1 }
+      | some (a2, undo') => backupTxs ops cfg height rest undo' { a2 with txNum := a2.txNum + 1 }
 
 /-- `BlockProcessor.backup_block(block)` incl. `DB.flush_backup`: effects and resulting system -/
 def backupFull (cfg : Cfg) (s : Sys) (b : Block) : Except Err (List Effect × Sys) :=
@@ -464,12 +485,12 @@ def backupFull (cfg : Cfg) (s : Sys) (b : Block) : Except Err (List Effect × Sy
     match alookup height s.p.undo with
     | none => .error .chainError
     | some undo =>
-      match backupTxs cfg height b.txs.reverse undo { s := s, txNum := 0 } with
+      match backupTxs sysOps cfg height b.txs.reverse undo { s := s, txNum := 0 } with
       | .error e => .error e
       | .ok (a, undoLeft) =>
         if !undoLeft.isEmpty then .error .assertion
         else
-          let m := a.s.m
+          let m := { a.s.m with touched := a.s.m.touched ++ a.touched }
           let st' : CState :=
             { m.st with
               height := m.st.height - 1
